@@ -378,20 +378,27 @@ def aligned_angle_ref_rule1(decay_group, decay_chain_struct, decay_data, data):
     return set_x, ref_matrix_final
 
 
-def aligned_angle_ref_rule2(decay_group, decay_chain_struct, decay_data, data):
+def aligned_angle_ref_rule2(
+    decay_group, decay_chain_struct, decay_data, data, base_z=None
+):
     # calculate aligned angle of final particles in each decay chain
+    # reference: the canonical spin frame of the particle seen from the rest
+    # frame of the top particle, with the same base axes as the decay chains
     set_x = {}  # reference particles
     ref_matrix = {}
 
+    if base_z is None:
+        base_z = np.array([[0.0, 0, 1]])
+    p_top = data[decay_group.top]["p"]
     ref_matrix_final = {}
     for i in decay_group.outs:
         set_x[i] = (
             None,
             {"x": np.array([[1.0, 0, 0]]), "z": np.array([[0.0, 0, 1]])},
         )
-        p = data[i]["p"]
+        p = LorentzVector.rest_vector(p_top, data[i]["p"])
         ang, _ = EulerAngle.angle_zx_z_getx(
-            np.array([[0.0, 0, 1]]),
+            base_z,
             np.array([[1.0, 0, 0]]),
             LorentzVector.vect(p),
         )
@@ -440,9 +447,14 @@ def cal_angle_from_particle(
     for i in decay_chain_struct:
         data_i = cal_helicity_angle(data, i, base_z=base_z)
         decay_data[i] = data_i
-    if align_ref == "center_mass":
+    # identical particles: the amplitude with exchanged momenta is added to
+    # the original one, so the spin frame of a final particle must not depend
+    # on the slot it occupies in the decay chains
+    if align_ref == "center_mass" or getattr(
+        decay_group, "identical_particles", None
+    ):
         set_x, ref_matrix_final = aligned_angle_ref_rule2(
-            decay_group, decay_chain_struct, decay_data, data
+            decay_group, decay_chain_struct, decay_data, data, base_z=base_z
         )
     else:
         set_x, ref_matrix_final = aligned_angle_ref_rule1(
